@@ -602,6 +602,8 @@ func addrIndexKey(branch, index uint32) uint64 {
 }
 
 func (a *AddrManager) updateManagedAddress(dbTransaction db.DBTransaction, managedAddresses []*ManagedAddress) error {
+	a.mu.Lock()
+	defer a.mu.Unlock()
 	for _, managedAddress := range managedAddresses {
 		a.addrs[managedAddress.address] = managedAddress
 		a.index[addrIndexKey(managedAddress.derivationPath.Branch, managedAddress.derivationPath.Index)] = managedAddress.address
